@@ -178,7 +178,9 @@ class time_limit:
         self.seconds = seconds or CASE_TIMEOUT
 
     def __enter__(self):
-        signal.setitimer(signal.ITIMER_REAL, self.seconds)
+        # repeating: code under test that swallows the first CaseTimeout (a
+        # bare `except:` around a retry, say) gets the next one 0.25 s later
+        signal.setitimer(signal.ITIMER_REAL, self.seconds, 0.25)
 
     def __exit__(self, *exc):
         signal.setitimer(signal.ITIMER_REAL, 0)
